@@ -254,7 +254,7 @@ class Engine(ExprMixin, CallMixin, SpecMixin, StmtMixin):
             self.entry = st.copy()
             self.entry.pc = list(st.pc)
             self.requires_pc = list(st.pc)
-            outs = self.exec_block(fn.body, st)
+            outs = self.exec_with_cuts(c, fn, st)
             res.paths = len(outs)
             for o in outs:
                 self.exit_obligations(c, fn, o)
@@ -274,6 +274,58 @@ class Engine(ExprMixin, CallMixin, SpecMixin, StmtMixin):
             res.status = "undecided"
             res.reason = "stale contract: %s" % e
         return res
+
+    def exec_with_cuts(self, c, fn, st):
+        """top-level statements one by one; before a statement named in contract.cuts the cut formulas are proved
+        and then become the only quantified knowledge that is carried on (sound weakening: keeps the VCs small)"""
+        from .stmts import has_quant
+        if not c.cuts:
+            return self.exec_block(fn.body, st)
+        seen = {}
+        points = {}
+        for k, stmt in enumerate(fn.body):
+            try:
+                src = ast.unparse(stmt)
+            except Exception:
+                continue
+            for key in c.cuts:
+                base, _, nth = key.partition("@")
+                if src.startswith(base):
+                    n = seen.get((base, k), None)
+                    cnt = sum(1 for (b, kk) in seen if b == base) + 1
+                    seen[(base, k)] = cnt
+                    if (nth == "" and cnt == 1) or (nth != "" and int(nth) == cnt):
+                        points[k] = key
+        missing = [k for k in c.cuts if k not in points.values()]
+        if missing:
+            raise StaleContract("%s: cut point(s) %r not found in the function body" % (c.qualname, missing))
+        states = [st]
+        for k, stmt in enumerate(fn.body):
+            if k in points:
+                key = points[k]
+                nxt = []
+                for x in states:
+                    if x.flow is not None:
+                        nxt.append(x)
+                        continue
+                    for i, cut in enumerate(c.cuts[key]):
+                        g = self.ev_spec(cut, x, old=self.entry, labels=self.labels)
+                        self.oblige(x, None, g, "cut", "cut[%s][%d]" % (key, i), stmt, "at '%s': %s" % (key, cut))
+                    y = x.copy()
+                    y.pc = list(self.requires_pc) + [f for f in x.pc[len(self.requires_pc):] if not has_quant(f)]
+                    for cut in c.cuts[key]:
+                        y.assume(self.ev_spec(cut, y, old=self.entry, labels=self.labels))
+                    y.trace.append("cut@%s" % key[:30])
+                    nxt.append(y)
+                states = nxt
+            nxt = []
+            for x in states:
+                if x.flow is not None:
+                    nxt.append(x)
+                else:
+                    nxt.extend(self.exec_stmt(stmt, x))
+            states = nxt
+        return states
 
     def walk_loops(self, fn):
         out = []
